@@ -73,7 +73,7 @@ def extra(ROOT, REPO, BUILD, log, sh, tier, seed, build_harness):
 
 
 CFG = dict(
-    rule="C11's histories (all of length 3 over 13 operations in the quick tier, length 4 thorough, + seeded random histories of "
+    rule="C11's histories (all of length 3 over 15 operations in the quick tier, length 4 thorough, + seeded random histories of "
          "length 4..12) on a fresh Mux with real loopback backends; after every step the published snapshot pointer is captured "
          "(VerifSnapshot) and the structural fingerprint (VerifFingerprint) of EVERY earlier captured snapshot is recomputed and "
          "compared with its value at capture; failing steps must leave the published pointer untouched. non-trivial = history "
@@ -102,3 +102,5 @@ CFG = dict(
     ],
     timeout=900,
 )
+
+CFG["rule"] += ' Also the histories around descriptor sets 9 / 10 (see C11) and registrations from a backend whose reflection stream ends with an error status after everything was answered (R<c>.<d>~): a call that returns an error must not have published.'
